@@ -3,6 +3,58 @@ open Lean (Json)
 namespace FtDriver
 open Ft
 
-def handleC12 (_j : Json) : Except String Verdict := throw "C12: not implemented"
+def hasResidue (dflt : Int) (d : Nat) (t : T d) : Bool := !canonicalB dflt d t
+
+def handleC12 (j : Json) : Except String Verdict := do
+  let op ← fStr j "op"
+  let d ← fNat j "d"          -- trees have depth d+1
+  let da := fIntD j "da" 0
+  let a ← fTree j "a" (d + 1)
+  if !wfB (d + 1) a then return { agree := true, spec := true, tags := ["OUT_OF_MODEL"] }
+  let resTag := if hasResidue da (d + 1) a then ["residueA"] else []
+  match op with
+  | "eq" =>
+    let db := fIntD j "db" 0
+    let b ← fTree j "b" (d + 1)
+    if !wfB (d + 1) b then return { agree := true, spec := true, tags := ["OUT_OF_MODEL"] }
+    let impl ← (← field j "impl").getBool?
+    let m := fiberEq da db (d + 1) a b
+    let ca := content da (d + 1) a
+    let cb := content db (d + 1) b
+    let s := decide (ca = cb)
+    let tags := resTag ++ (if hasResidue db (d + 1) b then ["residueB"] else []) ++
+      (if s then ["equal"] else ["differ"]) ++ (if ca.isEmpty then ["emptyA"] else []) ++
+      (if !s && ca.length == cb.length && ((ca.zip cb).filter (fun p => p.1 != p.2)).length == 1 then ["differ-one-point"] else [])
+    pure { agree := m == impl, spec := s == impl, model := Json.bool m, tags }
+  | "teq" =>
+    let db := fIntD j "db" 0
+    let b ← fTree j "b" (d + 1)
+    if !wfB (d + 1) b then return { agree := true, spec := true, tags := ["OUT_OF_MODEL"] }
+    let impl ← (← field j "impl").getBool?
+    let idsA ← (← fArr j "idsA").mapM (·.getStr?)
+    let idsB ← (← fArr j "idsB").mapM (·.getStr?)
+    let m := decide (idsA = idsB) && fiberEq da db (d + 1) a b
+    let s := decide (idsA = idsB) && decide (content da (d + 1) a = content db (d + 1) b)
+    pure { agree := m == impl, spec := s == impl, model := Json.bool m,
+           tags := resTag ++ (if s then ["equal"] else ["differ"]) ++ (if idsA = idsB then [] else ["ids-differ"]) }
+  | "isempty" =>
+    let impl ← (← field j "impl").getBool?
+    let m := isEmpty da (d + 1) a
+    let s := (content da (d + 1) a).isEmpty
+    pure { agree := m == impl, spec := s == impl, model := Json.bool m,
+           tags := resTag ++ (if s then ["empty"] else ["nonempty"]) }
+  | "count" =>
+    let impl ← fNat j "impl"
+    let m := countValues da (d + 1) a
+    let s := (content da (d + 1) a).length
+    pure { agree := m == impl, spec := s == impl, model := jNat m, tags := resTag ++ (if s == 0 then ["empty"] else ["nonempty"]) }
+  | "nonempty" =>
+    let impl ← fTree j "impl" (d + 1)
+    let m := nonEmpty da (d + 1) a
+    let s := canonicalB da (d + 1) impl && wfB (d + 1) impl &&
+      decide (content da (d + 1) impl = content da (d + 1) a)
+    let ag := treeEq (d + 1) m impl
+    pure { agree := ag, spec := s, model := treeToJson (d + 1) m, tags := resTag }
+  | _ => throw s!"C12: unknown op {op}"
 
 end FtDriver
